@@ -307,6 +307,9 @@ func runLinz(o Opts) *Result {
 			if sig == "cleanup-deleted-live-entry" {
 				also = []string{"C11"}
 			}
+			if strings.Contains(detail, "[slot of the colliding pair]") {
+				also = append(also, "C09") // (an operation on one key of the pair acted on the entry of the other)
+			}
 			res.Violations = append(res.Violations, Violation{Property: prop, Also: also, Kind: "monitor", Sig: "linz:" + sig + ":" + kind, Detail: detail,
 				Replay: map[string]interface{}{"engine": "linz", "seed": o.Seed, "index": idx, "backend": kind, "strategy": strategy, "history": hist,
 					"note":  "free-running schedule: re-running the same seed may interleave differently; the history above is the witness",
@@ -408,6 +411,9 @@ func runLinz(o Opts) *Result {
 				if strings.Contains(r, "cleanup-deleted-live-entry") {
 					sig = "cleanup-deleted-live-entry"
 					extra = " — it becomes linearizable only if a cleanup cycle is allowed to delete an entry that was not long expired at any instant of the cycle (a write lost to a check-then-delete race)"
+				}
+				if len(slotKeys(slot, kind)) > 1 {
+					extra += " [slot of the colliding pair]"
 				}
 				fail("C08", sig, fmt.Sprintf("the history of slot %d (keys %v) admits no linearization w.r.t. the sequential backend model%s", slot, slotKeys(slot, kind), extra), hist)
 			} else if overlap {
